@@ -212,19 +212,20 @@ Lemma bwd_step :
   exists c1, star P (Run l rest s) ev c1 /\ rel c1 c1'.
 Proof.
   intros OK rest. induction rest as [|st r IH]; intros l pre s s' ev c1' Hpre A St.
-  - rewrite dce_kept_nil in St. simpl in A. inversion St; subst.
+  - rewrite dce_kept_nil in St. simpl in A.
+    inversion St as [ | | l0 l' b'' s0 Hl' Hb' | l0 s0 He']; subst.
     + (* goto *)
-      rewrite dce_succs in H3. rewrite dce_get_block in H5.
-      destruct (get_block P l') as [b|] eqn:Hb; [|discriminate]. inversion H5; subst. simpl.
+      rewrite dce_succs in Hl'. rewrite dce_get_block in Hb'.
+      destruct (get_block P l') as [b|] eqn:Hb; [|discriminate]. inversion Hb'; subst. simpl.
       exists (Run l' (b_stmts b) s). split; [apply star_one; econstructor; eauto|].
       apply (goto_rel l l' b s s'); auto.
     + (* exit *)
-      change (c_exit P') with (c_exit P) in H3. change (c_outs P') with (c_outs P).
+      change (c_exit P') with (c_exit P) in He'. change (c_outs P') with (c_outs P).
       exists Done. split; [|constructor]. apply star_one.
       assert (E : map s' (c_outs P) = map s (c_outs P)).
       { apply map_ext_in. intros x Hx. symmetry. apply A. apply live_out_In. left. split; auto.
-        unfold is_exit. rewrite H3. apply N.eqb_refl. }
-      rewrite E. apply StExit. exact H3.
+        unfold is_exit. rewrite He'. apply N.eqb_refl. }
+      rewrite E. apply StExit. exact He'.
   - assert (Hpre' : stmts_of P l = (pre ++ [st]) ++ r) by (rewrite <- app_assoc; exact Hpre).
     rewrite dce_kept_cons in St.
     destruct (dce_removes st (dce_run r (live_out P m l))) eqn:RM.
@@ -242,8 +243,8 @@ Proof.
       exists c1. split; auto. change ev with ([] ++ ev). eapply StarStep; [|exact S1].
       constructor. exact X.
     + (* kept *)
-      simpl in A. inversion St; subst.
-      * destruct (exec_stmt_agree _ _ _ _ _ _ (agree_sym _ _ _ A) H5) as [s1 [X A']].
+      simpl in A. inversion St as [l0 st0 r0 s0 ev0 s1' X' | l0 c id r0 s0 F' | |]; subst.
+      * destruct (exec_stmt_agree _ _ _ _ _ _ (agree_sym _ _ _ A) X') as [s1 [X A']].
         exists (Run l r s1). split; [apply star_one; constructor; auto|].
         apply (RelRun _ (pre ++ [st])); auto. apply agree_sym. exact A'.
       * assert (AU : agree (lc_vars c) s s') by (apply (agree_live_uses (SAssert c id) _ _ _ eq_refl A)).
@@ -404,16 +405,18 @@ Example ex_dce : exists Q, dce ex_cfg = Some Q /\
 Proof. eexists. split; [vm_compute; reflexivity|]. vm_compute. auto. Qed.
 Example ex_provisos : dce_provisos 10 ex_cfg.
 Proof.
-  simpl. assert (L : exists m, liveness ex_cfg = Some m /\ dce_round_removed ex_cfg m = [SAssign 2%N (mkLE [] 7%Z)]
+  assert (L : exists m, liveness ex_cfg = Some m /\ dce_round_removed ex_cfg m = [SAssign 2%N (mkLE [] 7%Z)]
                              /\ exists m2, liveness (dce_apply ex_cfg m) = Some m2 /\ dce_round_removed (dce_apply ex_cfg m) m2 = []).
   { eexists. split; [vm_compute; reflexivity|]. split; [vm_compute; reflexivity|].
     eexists. split; vm_compute; reflexivity. }
-  destruct L as [m [L1 [L2 [m2 [L3 L4]]]]]. rewrite L1. split.
+  destruct L as [m [L1 [L2 [m2 [L3 L4]]]]].
+  cbn -[liveness dce_round_removed dce_apply nonempty removed_ok ex_cfg]. rewrite L1. split.
   - intros l b st Hb Hin.
     assert (In st (dce_round_removed ex_cfg m)).
     { unfold dce_round_removed. apply in_flat_map. exists (l, b). split; [apply lookup_In; exact Hb|exact Hin]. }
     rewrite L2 in H. destruct H as [<-|[]]. apply no_fail_assign.
-  - rewrite L2. simpl. rewrite L3. split; [|rewrite L4; simpl; auto].
+  - rewrite L2. cbn -[liveness dce_round_removed dce_apply removed_ok ex_cfg]. rewrite L3.
+    split; [|rewrite L4; simpl; auto].
     intros l b st Hb Hin.
     assert (In st (dce_round_removed (dce_apply ex_cfg m) m2)).
     { unfold dce_round_removed. apply in_flat_map. exists (l, b). split; [apply lookup_In; exact Hb|exact Hin]. }
